@@ -233,6 +233,26 @@ class EpochRules:
                 good, desc = False, False
             sink.emit('C16.SORT', 'ok' if good else 'violated', 'the list is sorted descending, de-duplicated and trimmed after the scan', self.loc(f),
                       'std::sort(greater) -> std::unique -> erase on every path' if good else 'sequence %s' % [n for n in names if n in ('std::sort', 'std::unique', 'erase')])
+        # the scan loop is left only through its own bound: every complete path has (i < N) == false
+        loopvars = set()
+        for p in ps:
+            for x in p.events:
+                if x['kind'] == 'call' and x.get('name') == 'expired' and x['obj'][0] == 'field':
+                    try:
+                        idx = x['obj'][1][1][2]
+                    except Exception:
+                        continue
+                    if isinstance(idx, tuple) and idx[0] == 's' and '~' in idx[1]:
+                        loopvars.add(idx[1].split('~')[0])
+
+        def is_index(v):
+            return isinstance(v, tuple) and v[0] == 's' and '~' in v[1] and v[1].split('~')[0] in loopvars
+        for p in ps:
+            done = any(isinstance(c, tuple) and c[0] == 'op' and c[1] == '<' and is_index(c[2]) and is_const(c[3]) and c[3][1] == self.slots_extent and not o for c, o, _ in p.conds) or \
+                any(isinstance(c, tuple) and c[0] == 'op' and c[1] in ('>=', '==') and is_index(c[2]) and is_const(c[3]) and c[3][1] == self.slots_extent and o for c, o, _ in p.conds)
+            hard = [e for e in p.events if e['kind'] == 'cond' and e['value'] == C(0, 1)]
+            sink.emit('C04.SCAN', 'ok' if done else 'violated', 'the scan leaves its loop only when every slot index was visited', self.loc(f, p.ret_line),
+                      'exit through i < %d == false' % self.slots_extent if done else 'a path reaches the end of the function without the loop bound having failed (early break / return): slots are skipped')
         if not general:
             sink.unsup('C04.SCAN', 'general iteration', self.loc(f), 'no path through a general loop iteration')
         # loop variable: starts at 0, +1 per iteration
@@ -440,11 +460,75 @@ class EpochRules:
                              (x['kind'] == 'call' and isinstance(x.get('obj'), tuple) and x['obj'] == ('deref', v))]
                     sink.emit('C20.UAF', 'ok' if not later else 'violated', 'no access to a node after it was deleted', self.loc(f, e['line']),
                               '' if not later else 'access at line %s' % later[0].get('line'))
+        self.walk_invariant(rm)
         # RemoveOutDatedLists does not modify the list it reads
         for p in self.paths(rm):
             for e in p.events:
                 if e['kind'] == 'call' and (e.get('record') or '').startswith('std::vector<') and not e.get('const_method') and e.get('name') not in ('cbegin', 'cend', 'begin', 'end'):
                     sink.bad('C17.CONST', 'RemoveOutDatedLists %s' % e['name'], self.loc(rm, e['line']), '')
+
+    def walk_invariant(self, rm):
+        """C20.WALKINV: in the retirement walk the trailing cursor is the walking cursor or its direct
+        predecessor (prev == cur or prev->next == cur) after every general iteration; otherwise an unlink
+        splices out nodes that are never deleted (leak) or deletes a node still linked."""
+        sink = self.sink
+        # the two cursors: locals initialised from the head
+        cursors = None
+        for p in self.paths(rm):
+            names = [e['name'] for e in p.events if e['kind'] == 'decl' and e['type'].get('ct', '').endswith('ProtectedNode *')]
+            if len(names) >= 2:
+                cursors = names[:2]
+                break
+        if not cursors:
+            sink.unsup('C20.WALKINV', 'RemoveOutDatedLists', self.loc(rm), 'cursor variables not recognised')
+            return
+        # which one walks: the one whose ->next is tested by the loop condition
+        checked = 0
+        for p in self.paths(rm):
+            evs = p.events
+            heads = [i for i, e in enumerate(evs) if e['kind'] == 'loop_head' and e['visit'] >= 2]
+            for hi, i in enumerate(heads):
+                h = evs[i]
+                # segment until the next loop_head of the same header or the end
+                j = next((k for k in range(i + 1, len(evs)) if evs[k]['kind'] == 'loop_head' and evs[k]['header'] == h['header']), len(evs))
+                # inner loops have their own headers: only outermost (the first header seen on the path)
+                first_header = next(e['header'] for e in evs if e['kind'] == 'loop_head')
+                if h['header'] != first_header:
+                    continue
+                seg = evs[i + 1:j]
+                if j == len(evs):
+                    continue      # the loop exits from here: nothing to preserve
+                cur = dict(h['locals'])
+                mem = {}
+                for e in seg:
+                    if e['kind'] == 'assign_local' and e['path'][2] in cursors:
+                        cur[e['path'][2]] = e['value']
+                    elif e['kind'] == 'assign' and e['path'][0] == 'field' and e['path'][2] == self.nextf:
+                        mem[e['path'][1]] = e['value']
+                a, b = cur.get(cursors[0]), cur.get(cursors[1])
+                if a is None or b is None:
+                    continue
+
+                eqs = set()
+                for e in seg:
+                    if e['kind'] == 'cond' and isinstance(e['value'], tuple) and e['value'][0] == 'op' and \
+                            ((e['value'][1] == '!=' and not e['outcome']) or (e['value'][1] == '==' and e['outcome'])):
+                        eqs.add((e['value'][2], e['value'][3]))
+                        eqs.add((e['value'][3], e['value'][2]))
+
+                def linked(x, y):
+                    if x == y or (x, y) in eqs:
+                        return True
+                    if x in mem:
+                        return mem[x] == y
+                    return y == S(show(('field', x, self.nextf)))
+                good = linked(a, b) or linked(b, a)
+                checked += 1
+                sink.emit('C20.WALKINV', 'ok' if good else 'violated', 'retirement walk keeps the trailing cursor adjacent to the walking cursor', self.loc(rm, seg[-1].get('line') if seg else None),
+                          '%s = %s, %s = %s after the iteration' % (cursors[0], norm(a), cursors[1], norm(b)) if good else
+                          'after an iteration %s = %s and %s = %s are not adjacent: a later unlink splices out nodes that are never freed' % (cursors[0], norm(a), cursors[1], norm(b)))
+        if not checked:
+            sink.unsup('C20.WALKINV', 'RemoveOutDatedLists', self.loc(rm), 'no general iteration of the walk found')
 
     def c20(self):
         sink = self.sink
@@ -577,11 +661,9 @@ class EpochRules:
         return seen
 
 
-_cache = {}
-
-
 def analyse(fx, eng):
-    k = id(fx)
+    _cache = fx.__dict__.setdefault('_rule_cache', {})
+    k = 'epoch'
     if k not in _cache:
         sink = Sink()
         r = EpochRules(fx, eng, sink)
